@@ -26,7 +26,8 @@ RULE = ('instructions parsed from template text / cited transcription (add, comb
         'rate/amount/line, smaller/larger, copy, divide, carry-out). (A) isolated: per parsed closed line, generated operand tuples (cents, '
         'equal/greater/less boundary cases); (B) end-to-end: solved 2021-2023 returns of all statuses. A check instance is non-trivial when '
         'its operands are not all zero; for floor/conditional sentences both branches are counted separately; distinct = (year, form, line, '
-        'operand tuple). Unparsed sentences are listed, never guessed')
+        'operand tuple). Unparsed sentences are listed, never guessed'
+        ' Statement totals: sentences that total boxes of payer statements ("Add the amounts in box 4 of all Forms 1099-R, 1099-DIV, 1099-INT, and 1099-G", transcribed with source; "from Form W-2, box 5" read from the template) are evaluated on the input file, and half of the generated returns are completed so that every such box is filled on every copy. `Figure the tax on line N` is evaluated with the harness\' own rate-schedule reference; status-dependent divisors are checked in isolation with a drawn filing status.')
 ASSUMPTIONS = ['"A through B" ranges expand over the form\'s own ordered numeric mapped lines',
                'a sentence with an unrecognised conditional clause is unparsed (no verdict)',
                'plain "Subtract A from B" is only compared when B >= A (sign conventions of blank sections are C15\'s subject)',
